@@ -25,7 +25,14 @@ func (d *PathDecoder) labelCandidatesFromDependentSchema(idx int, db map[schema.
 
 	prefix, _ := d.bytesFromRange(prefixRng)
 
-	for _, schemaKey := range sortedSchemaKeys(db) {
+	schemaKeys := sortedSchemaKeys(db)
+	// Keys made of labels only come first: where a label value occurs
+	// in several keys, the body it selects on its own describes it.
+	sort.SliceStable(schemaKeys, func(i, j int) bool {
+		return !schemaKeyHasAttributes(schemaKeys[i]) && schemaKeyHasAttributes(schemaKeys[j])
+	})
+
+	for _, schemaKey := range schemaKeys {
 		depKeys, err := decodeSchemaKey(schemaKey)
 		if err != nil {
 			// key undecodable
@@ -235,6 +242,17 @@ func sortedSchemaKeys(m map[schema.SchemaKey]*schema.BodySchema) []schema.Schema
 		return string(keys[i]) < string(keys[j])
 	})
 	return keys
+}
+
+// schemaKeyHasAttributes tells whether the key carries attribute values
+func schemaKeyHasAttributes(key schema.SchemaKey) bool {
+	var dk struct {
+		Attributes []json.RawMessage `json:"attrs"`
+	}
+	if err := json.Unmarshal([]byte(key), &dk); err != nil {
+		return false
+	}
+	return len(dk.Attributes) > 0
 }
 
 func decodeSchemaKey(key schema.SchemaKey) (schema.DependencyKeys, error) {
